@@ -1,6 +1,8 @@
 //! Task-level engine: a seeded director polls the real `get()` futures of a
 //! real managed pool by hand inside a paused-clock current-thread runtime.
 
+pub mod c03;
+pub mod c04;
 pub mod director;
 pub mod manager;
 pub mod run;
